@@ -83,7 +83,7 @@ def kv(line):
 
 def abort_violation(ck, exe, sh, rc, err):
     sig = vlib.sanitizer_signature(err)
-    ck.violation("harness-abort:%s:%s" % (sh[1], sig),
+    ck.violation("harness-abort:" + sig,
                  {"mode": sh[1], "seed": sh[2], "nframes": sh[3], "modules": sh[4], "stderr": err[-3000:]},
                  "c14 harness (%s) aborted rc=%d: %s" % (sh[1], rc, sig))
 
